@@ -184,16 +184,16 @@ def r2_burn_in(ctx, rid="C17.R2", title="histories appended only after burn-in, 
     ctx.check(ok, rid, g, g.node, "values recorded after the iteration's sampling sweep", "values are recorded before the sampling sweep of the iteration", construct="record after sampling")
 
 
-def r3_axes(ctx):
-    ctx.rule("C17.R3", "stack axis 0 == reduction axis 0; best draw gathered per individual", 5)
+def r3_axes(ctx, rid="C17.R3"):
+    ctx.rule(rid, "stack axis 0 == reduction axis 0; best draw gathered per individual", 5)
     ix = ctx.ix
-    g = ix.func(MC, "McmcPersonalizeAlgorithm._get_individual_parameters", "C17.R3")
+    g = ix.func(MC, "McmcPersonalizeAlgorithm._get_individual_parameters", rid)
     stacks = [c for c in ast.walk(g.node) if isinstance(c, ast.Call) and U(c.func) == "torch.stack"]
     for c in stacks:
         d = kwarg(c, "dim") or (c.args[1] if len(c.args) > 1 else None)
-        ctx.check(d is None or U(d) == "0", "C17.R3", g, c, "draws stacked on a new leading axis", f"draws stacked on axis {U(d)}: the posterior mean / argmin over axis 0 then mixes individuals instead of draws")
+        ctx.check(d is None or U(d) == "0", rid, g, c, "draws stacked on a new leading axis", f"draws stacked on axis {U(d)}: the posterior mean / argmin over axis 0 then mixes individuals instead of draws")
     if len(stacks) < 3:
-        ctx.violation("C17.R3", g, g.node, "the three histories are not all stacked", construct="stacks")
+        ctx.violation(rid, g, g.node, "the three histories are not all stacked", construct="stacks")
     call = [c for c in ast.walk(g.node) if isinstance(c, ast.Call) and U(c.func) == "self._compute_individual_parameters_from_samples_torch"]
     cg_ = Canon(g.node)
     gl = cg_.lines(False, True)
@@ -215,25 +215,25 @@ def r3_axes(ctx):
         CAST = r"\.(to|type|float|half|bfloat16|int|long)\(.*\)"
         for which, h, a in (("attachment", b["a"], a1), ("regularity", b["r"], a2)):
             if _re.fullmatch((ST % _re.escape(h)) + CAST, a):
-                ctx.violation("C17.R3", g, call[0], f"the {which} history is re-cast (`{a[:70]}`) before it reaches the estimator: a penalty recorded in double precision (the joint model's 1e307) "
+                ctx.violation(rid, g, call[0], f"the {which} history is re-cast (`{a[:70]}`) before it reaches the estimator: a penalty recorded in double precision (the joint model's 1e307) "
                               "overflows to inf in single precision, so the draws compared / averaged are no longer the recorded ones", construct=f"{which} history re-cast")
                 ok = True  # reported under its own construct
-    ctx.check(ok, "C17.R3", g, call[0] if call else g.node, "(values, attachments, regularities) handed over in this order", "attachment and regularity histories are swapped / not handed to the estimator")
-    m = ix.func("leaspy.algo.personalize.mean_posterior", "MeanPosteriorAlgorithm._compute_individual_parameters_from_samples_torch", "C17.R3")
+    ctx.check(ok, rid, g, call[0] if call else g.node, "(values, attachments, regularities) handed over in this order", "attachment and regularity histories are swapped / not handed to the estimator")
+    m = ix.func("leaspy.algo.personalize.mean_posterior", "MeanPosteriorAlgorithm._compute_individual_parameters_from_samples_torch", rid)
     rets = [s for s in statements(m.node) if isinstance(s, ast.Return)]
     ml = Canon(m.node).lines(True, True)
     ok = len(rets) == 1 and (unify(ml, ["return {?k: ?v.mean(dim=0) for ?k, ?v in $1.items()}"]) or unify(ml, ["return {?k: torch.mean(?v, dim=0) for ?k, ?v in $1.items()}"])) is not None
-    ctx.check(ok, "C17.R3", m, rets[0] if rets else m.node, "mean over the draw axis (dim=0) of every variable", "the posterior mean is not the mean over the draw axis of each kept variable")
-    mo = ix.func("leaspy.algo.personalize.mode_posterior", "ModePosteriorAlgorithm._compute_individual_parameters_from_samples_torch", "C17.R3")
+    ctx.check(ok, rid, m, rets[0] if rets else m.node, "mean over the draw axis (dim=0) of every variable", "the posterior mean is not the mean over the draw axis of each kept variable")
+    mo = ix.func("leaspy.algo.personalize.mode_posterior", "ModePosteriorAlgorithm._compute_individual_parameters_from_samples_torch", rid)
     am = [c for c in ast.walk(mo.node) if isinstance(c, ast.Call) and U(c.func) == "torch.argmin"]
     cmo = Canon(mo.node)
     ok = len(am) == 1 and cmo.text(am[0].args[0]) in ("$2 + $0.regularity_factor * $3", "$0.regularity_factor * $3 + $2") and U(kwarg(am[0], "dim")) == "0"
-    ctx.check(ok, "C17.R3", mo, am[0] if am else mo.node, "best draw = argmin over draws of attachment + factor * regularity",
+    ctx.check(ok, rid, mo, am[0] if am else mo.node, "best draw = argmin over draws of attachment + factor * regularity",
               f"the best draw is `{U(am[0]) if am else '?'}`: not the argmin over the draw axis of attachment + regularity_factor * regularity")
     rets = [s for s in statements(mo.node) if isinstance(s, ast.Return)]
     BEST = cmo.text(am[0]) if am else "?"
     ok = len(rets) == 1 and cmo.text(rets[0].value) == "{%0: %1[" + BEST + ", torch.arange(len(" + BEST + "))] for %0, %1 in $1.items()}"
-    ctx.check(ok, "C17.R3", mo, rets[0] if rets else mo.node, "gathered as value[best draw of i, i] for every individual i", "the best draw is not gathered per individual (value[best_i, i])")
+    ctx.check(ok, rid, mo, rets[0] if rets else mo.node, "gathered as value[best draw of i, i] for every individual i", "the best draw is not gathered per individual (value[best_i, i])")
 
 
 def r4_objective(ctx):
@@ -332,6 +332,10 @@ def rules(ctx):
     # rewrites a cached or snapshot tensor that a history may reference (same rule as C02.R4)
     from .c02 import r4_selection
     r4_selection(ctx, rid="C17.R6")
+    # "one aligned estimate per subject": the per-subject optimisations share nothing - a memo of objective values kept on the algorithm object
+    # hands one subject the losses (hence the optimum) of another (same rule as C07.R3)
+    from .c07 import r3_job_effects
+    r3_job_effects(ctx, rid="C17.R7", title="the per-subject jobs store nothing on the shared algorithm object and draw nothing")
     ctx.trust("joblib.Parallel returns results in the order of the generator; dict insertion order; torch.stack / argmin / advanced indexing semantics")
 
 
